@@ -34,19 +34,109 @@ def cases(tier):
         for plan in ('c+c', 'm+c'):
             out.append({'fn': 'run_race', 'id': f'race/{kind}/drop/{plan}', 'params': {'kind': kind, 'slow': False, 'plan': plan, 'preempt': pre,
                                                                                       'drop': True}})
+        for refuse in (0, 1, 2):
+            out.append({'fn': 'run_reconnect_race', 'id': f'race/{kind}/reconnect/refuse{refuse}',
+                        'params': {'kind': kind, 'refuse': refuse, 'preempt': pre}})
     return out
 
 
-def run_race(env, p):
+def run_race(env, p, body=None):
     import cosched
     import frappy.io as fio
     import frappy.modulebase as mb
     saved = fio.threading, mb.threading
     cosched.patch_threading(fio, mb)
     try:
-        _run_race(env, p, cosched)
+        (body or _run_race)(env, p, cosched)
     finally:
         fio.threading, mb.threading = saved
+
+
+def run_reconnect_race(env, p):
+    run_race(env, p, _run_reconnect_race)
+
+
+def _run_reconnect_race(env, p, cosched):
+    """the device is disconnected, the reconnect interval has elapsed, 2 callers arrive at once: reconnection is attempted
+    no more often than the interval allows, every caller gets its own reply or a communication error, callbacks run once"""
+    from frappy.errors import CommunicationFailedError
+    kind = p['kind']
+    srv, io, dev, clock = B.make_io(env, kind)
+    base = dev_conn_class()
+    K = f'C16/race/{kind}/reconnect'
+
+    class RaceConn(base):
+        scheme = 'fake'
+
+        def __init__(self, uri, *args, **kwargs):
+            cosched.yield_point('connect')      # a connect attempt is I/O
+            if dev.refuse > 0:
+                dev.refuse -= 1
+                dev.connect_ok = False
+            else:
+                dev.connect_ok = True
+            super().__init__(uri, *args, **kwargs)
+
+        def send(self, data):
+            cosched.yield_point('send')
+            super().send(data)
+
+        def recv(self):
+            cosched.yield_point('recv')
+            return super().recv()
+
+        def flush_recv(self):
+            cosched.yield_point('flush')
+            return super().flush_recv()
+
+    eol = b'\n' if kind == 'string' else b''
+    dev.on_send = lambda data: [b'R' + (data[:-1] if eol else data)[1:] + eol]
+    dev.refuse = 0
+    io.connectStart()
+    calls = []
+    io.registerReconnectCallback('cb', lambda: calls.append(clock.now) or True)
+    io.closeConnection()
+    clock.now = clock.now + io.pollinterval + 1       # the interval has elapsed
+    dev.refuse = p['refuse']
+    n0 = len(dev.connect_attempts)
+    results = {}
+
+    def make(tname, idx):
+        def run():
+            c = f'C{idx}' if kind == 'string' else b'C%d' % idx
+            try:
+                results[tname] = ('ok', c, io.communicate(c) if kind == 'string' else io.communicate(c, len(c)))
+            except CommunicationFailedError as e:
+                results[tname] = ('error', c, repr(e))
+        return run
+
+    s = cosched.Sched(env, max_preempt=p['preempt'])
+    for i in range(2):
+        s.spawn(f't{i}', make(f't{i}', i))
+    s.run()
+    env.check(s.deadlock is None, K + '/deadlock', s.deadlock)
+    for t in s.threads:
+        env.check(t.exc is None, K + '/caller-got-other-exception', [t.name, repr(t.exc)])
+    if s.preempts:
+        env.note('race/preempted')
+    att = dev.connect_attempts[n0:]
+    # virtual time does not advance during the run: at most one attempt fits into the interval
+    env.check(len(att) <= 1 or max(att) - min(att) >= io.pollinterval, K + '/reconnect-attempts-closer-than-interval', att)
+    env.check(len(att) >= 1, K + '/no-reconnect-attempt-although-interval-elapsed', att)
+    for tname, res in sorted(results.items()):
+        if res[0] == 'ok':
+            env.note('race/paired')
+            want = ('R' + res[1][1:]) if kind == 'string' else b'R' + res[1][1:]
+            env.check(res[2] == want, K + '/reply-of-another-command', [tname, res])
+            env.check(p['refuse'] == 0, K + '/call-succeeded-although-connect-was-refused', [tname, res])
+    env.check(len(results) == 2, K + '/caller-without-result', sorted(results))
+    if p['refuse'] == 0:
+        env.check(io.is_connected is True, K + '/not-connected-after-successful-reconnect')
+        env.check(len(calls) == 1, K + '/reconnect-callback-not-run-exactly-once', calls)
+        env.check(any(r[0] == 'ok' for r in results.values()), K + '/no-caller-served-after-reconnect', sorted(results.items()))
+    else:
+        env.check(not calls, K + '/reconnect-callback-run-without-connection', calls)
+    env.note('race/transaction')
 
 
 def _run_race(env, p, cosched):
